@@ -181,13 +181,16 @@ def rand_text_value(rng):
 
 
 # ---------------------------------------------------------------------------------------------------------------
+HEAVY = ("put_model", "reload_model", "export")      # whole objects / collections per case: small shards (memory)
+
+
 def corr(ctx, tag, fn, cases, ie, oe, eqb, key=None, nontrivial=None):
     for i, o in cases:
         k = key(i) if key else repr(i)
         ctx.case((tag, k), nontrivial=(nontrivial(i, o) if nontrivial else True))
     ctx.count("cases:" + tag, len(cases))
     ctx.log("correspondence", tag, len(cases), "cases")
-    bad = ctx.diff_cases("c14_" + tag, HEADER, fn, cases, ie, oe, eqb, shard=max(1, min(150, -(-len(cases) // 16))))
+    bad = ctx.diff_cases("c14_" + tag, HEADER, fn, cases, ie, oe, eqb, shard=max(1, min(4 if tag == "export" else 25 if tag in HEAVY else 150, -(-len(cases) // 16))))
     if bad is None:
         return None
     ok = not bad
